@@ -125,6 +125,9 @@ func (e *Env) resolveType(name string) types.Type {
 	if b, ok := basicByName[name]; ok {
 		return b
 	}
+	if name == "any" || name == "error" {
+		return types.Universe.Lookup(name).Type()
+	}
 	if name == "mathint" {
 		return nil
 	}
@@ -589,7 +592,9 @@ func (e *Env) call(c *ECall) TV {
 		if !ok {
 			sfail("has() on non-map %v", m.T)
 		}
-		return TV{Sel(st.mapHas(e.toTerm(m), kt, vt), e.intTerm(c.Args[1])), boolT}
+		mt := e.toTerm(m)
+		// a nil map contains nothing
+		return TV{And(Neq(mt, TInt(0)), Sel(st.mapHas(mt, kt, vt), e.intTerm(c.Args[1]))), boolT}
 	case "get":
 		return e.index(e.eval(c.Args[0]), c.Args[1])
 	case "unchanged":
